@@ -35,7 +35,12 @@ class CI:
 
 
 def is_int(x):
-    return isinstance(x, CI) or isinstance(x, z3.BitVecRef)
+    return isinstance(x, CI) or isinstance(x, z3.BitVecRef) or is_zint(x)
+
+
+def is_zint(x):
+    """exact integer mode: a z3 Int term standing for a machine integer (its type comes from the MIR)"""
+    return isinstance(x, z3.ArithRef)
 
 
 def is_bool(x):
@@ -268,6 +273,8 @@ def ite(g, a, b):
     if is_int(a) and is_int(b):
         if isinstance(a, CI) and isinstance(b, CI) and a == b:
             return a
+        if is_zint(a) or is_zint(b):
+            return z3.If(g, _to_zint_untyped(a), _to_zint_untyped(b))
         h = _hoist_xor(g, a, b)
         if h is not None:
             return h
@@ -311,6 +318,16 @@ def ite(g, a, b):
     if hasattr(a, 'ite_with') and type(a) is type(b):
         return a.ite_with(g, b)
     raise Unsupported('ite of %r / %r' % (type(a).__name__, type(b).__name__))
+
+
+def _to_zint_untyped(x):
+    if is_zint(x):
+        return x
+    if isinstance(x, CI):
+        if x.v >> (x.w - 1):
+            raise Unsupported('merging an integer-mode value with a concrete value whose sign is ambiguous')
+        return z3.IntVal(x.v)
+    raise Unsupported('merging an integer-mode value with a bit-vector term')
 
 
 def _hoist_xor(g, a, b):
@@ -368,6 +385,22 @@ def _same_guard(x, y):
     return False
 
 
+def _apply_lifting_ite(fn, args, k):
+    """fn(args) with if-then-else index terms pulled outward:  f(ite(c,a,b)) -> ite(c, f(a), f(b))"""
+    while k < len(args):
+        a = z3.simplify(args[k]) if not z3.is_bv_value(args[k]) else args[k]
+        args[k] = a
+        if z3.is_app_of(a, z3.Z3_OP_ITE):
+            c, x, y = a.arg(0), a.arg(1), a.arg(2)
+            l = list(args)
+            l[k] = x
+            r = list(args)
+            r[k] = y
+            return z3.If(c, _apply_lifting_ite(fn, l, k), _apply_lifting_ite(fn, r, k))
+        k += 1
+    return fn(*args)
+
+
 class UFArr:
     """(multi-dimensional) table whose entries are applications of an uninterpreted function to the indices"""
     __slots__ = ('fn', 'nidx', 'idxs')
@@ -381,7 +414,7 @@ class UFArr:
             i = z3.ZeroExt(64 - i.size(), i)
         idxs = self.idxs + (i,)
         if len(idxs) == self.nidx:
-            return self.fn(*idxs)
+            return _apply_lifting_ite(self.fn, list(idxs), 0)
         return UFArr(self.fn, self.nidx, idxs)
 
     def ite_with(self, g, other):
